@@ -78,6 +78,7 @@ def run(argv, cwd=None, timeout=30, env=None, stdin=None, mem_mb=4096, stack_mb=
         env = base_env()
     if asan:
         mem_mb = 0      # ASan reserves terabytes of address space
+        stack_mb = max(stack_mb, 256)     # instrumented frames are several times larger
     t0 = time.time()
     try:
         p = subprocess.Popen(argv, cwd=cwd, env=env, stdin=subprocess.PIPE if stdin is not None else subprocess.DEVNULL,
